@@ -6,6 +6,7 @@ import (
 	"fmt"
 	"math/rand"
 	"os"
+	"path/filepath"
 	"sort"
 	"strings"
 	"testing"
@@ -116,6 +117,36 @@ func tmp(prefix string) string {
 		panic(err)
 	}
 	return d
+}
+
+// dirSignature summarises a directory tree (paths, sizes, modification times).
+func dirSignature(dir string) string {
+	var sb strings.Builder
+	_ = filepath.Walk(dir, func(p string, info os.FileInfo, err error) error {
+		if err == nil {
+			fmt.Fprintf(&sb, "%s|%d|%d\n", p, info.Size(), info.ModTime().UnixNano())
+		}
+		return nil
+	})
+	return sb.String()
+}
+
+// copyDir copies a directory tree.
+func copyDir(src, dst string) error {
+	return filepath.Walk(src, func(p string, info os.FileInfo, err error) error {
+		if err != nil {
+			return err
+		}
+		rel, _ := filepath.Rel(src, p)
+		if info.IsDir() {
+			return os.MkdirAll(filepath.Join(dst, rel), 0o755)
+		}
+		b, err := os.ReadFile(p)
+		if err != nil {
+			return err
+		}
+		return os.WriteFile(filepath.Join(dst, rel), b, info.Mode())
+	})
 }
 
 func run05(c drv.Case, res *drv.Result) {
@@ -283,6 +314,32 @@ func run05(c drv.Case, res *drv.Result) {
 				// may legitimately refuse to run on it. But a second, fault-free Update that REPORTS SUCCESS claims the
 				// directory is at the target: then it must equal the fresh download.
 				res.Stat("updates_reporting_the_fault", 1)
+				// Update returns at the first error while its other transfers keep running in this process (a CLI process
+				// would exit and take them with it). The retry therefore works on a COPY of the directory that the
+				// goroutines of the failed attempt cannot reach, taken once they have gone quiet: no store call of the
+				// updater and no change in the directory between three consecutive looks.
+				quiet, lastCalls, lastSig := 0, -1, ""
+				for look := 0; look < 100 && quiet < 3; look++ {
+					time.Sleep(50 * time.Millisecond)
+					n, _ := a.Calls()
+					sig := dirSignature(dirF)
+					if n == lastCalls && sig == lastSig {
+						quiet++
+					} else {
+						quiet, lastCalls, lastSig = 0, n, sig
+					}
+				}
+				if quiet < 3 {
+					res.Stat("retries_skipped_failed_update_still_running", 1)
+					os.RemoveAll(dirF)
+					continue
+				}
+				dirG := tmp("c05-G-")
+				if err := copyDir(dirF, dirG); err != nil {
+					panic(err)
+				}
+				os.RemoveAll(dirF)
+				dirF = dirG
 				rerr := core.Update(ctx, env.ReadBundle(nil, "repo", idB, nil, p.DownConc), core.NewBundle(core.ConsumableStore(coreh.LocalFS(dirF)), core.Logger(coreh.Nop)))
 				if rerr != nil {
 					res.Stat("retries_after_a_failed_update_refused", 1)
